@@ -47,6 +47,7 @@ def gen(seed, run, sub="direct", tier="quick"):
     pos = 0
     align = r.random() < 0.25   # chunk boundaries right after a newline
     silence = r.choice([0, 0, 0, 0, 0.02, 0.1]) if sub == "direct" else 0
+    nsil = 0
     while pos < len(stream):
         sz = r.randint(1, 256)
         if align:
@@ -54,8 +55,9 @@ def gen(seed, run, sub="direct", tier="quick"):
             if j >= 0:
                 sz = j + 1 - pos
         t += r.choice([0, 0, 0.001, 0.1, 0.26, 0.6])
-        if silence and r.random() < silence:
+        if silence and nsil < 3 and r.random() < silence:
             t += r.choice([31.0, 70.0, 400.0])      # the device is silent for a long while
+            nsil += 1
         arrivals.append([round(t, 6), stream[pos:pos + sz].hex()])
         pos += sz
     end = r.choice(["eof", "eof", "eof", "reset"])
